@@ -68,6 +68,25 @@ CLAIMS = {
         note=TRUST + "pydantic's dump/validate round trip inside CFModel.expand_actions is exercised, not modelled (see C15); NotAction is not claimed idempotent."),
 }
 
+CLAIMS["C11"] = dict(
+    technique="Lean 4 proof (one theorem per operator family stating the comparison; interval containment for IpAddress; negation duality) + differential correspondence on boundary operand pairs",
+    text="IamCond.evalBase transliterates build_evaluator over typed values (text with supplied case fold, integers, instants with awareness, "
+         "networks, bytes, booleans, None, lists). Proved for all operands: Equals/NotEquals are Python equality and its negation, the four "
+         "orderings with the equal-operands boundary explicit, IgnoreCase on the folded forms, Like = the glob matcher of C08 (case-sensitive), "
+         "Bool identity, Null presence, IpAddress ↔ containment of address ranges (C11_ip_containment), and every negated operator is the negation "
+         "of its positive counterpart (C11_negation_dual; for NotIpAddress on network-valued policies, the excluded point proved separately). "
+         "Correspondence: each of the 27 base operators on operand pairs generated at boundaries, the duality re-checked on the implementation.",
+    note=TRUST + "Python's ==, <, casefold/NFKD, ipaddress.subnet_of on the typed values (exercised every run); policy values as parsed by the library.")
+CLAIMS["C12"] = dict(
+    technique="Lean 4 proof (lazy all/any with exception propagation; block true iff every key of every operator passes; key independence; qualifier and value-list clauses) + differential correspondence + conjunction-of-parts oracle",
+    text="IamCond.call transliterates build_root_evaluator / build_key_evaluator / build_eval / __call__ with Python's left-to-right short-circuit and "
+         "exception propagation made explicit (R = true | false | raised). Proved for all blocks and contexts: C12_true_iff, C12_false, C12_none, "
+         "C12_never_raises, C12_key_independent (a key's test reads only that key's context value), alternatives for positive operators and joint "
+         "exclusion for negated ones, ForAllValues / ForAnyValue / IfExists, colon normalisation, and that the 159 regenerated field names parse to "
+         "the 27 base operators. Correspondence on random blocks (1–3 operators × 1–3 keys × 1–3 values, qualifiers) with contexts generated "
+         "relative to the block; on the implementation alone the block must equal the conjunction of its single-key parts.",
+    note=TRUST + "operator evaluation order = field declaration order regenerated from the live class (it decides False vs None when one part fails and another raises).")
+
 DESIGN_REF = {k: f"DESIGN.md §5 {k}" for k in CLAIMS}
 
 
